@@ -18,6 +18,7 @@ from __future__ import annotations
 
 import contextlib
 import signal
+import time
 import struct
 
 from hypothesis import strategies as st
@@ -750,8 +751,80 @@ def tcp_shard(job):
         common.run_pred(lambda c, st_: one(c), case, s, 'tcp')
 
     explore()
+    extras(srv, s)
     witness.close()
     return s
+
+
+def extras(srv, s):
+    """Deterministic additions to the TCP clause: (1) bursts of connections reset before the server accepts them;
+    (2) a write request cut at every byte offset followed by end-of-stream: the unfinished frame changes no tag."""
+    import socket as _socket
+    import struct as _struct
+    # (1)
+    case = {'tcp': 'burst of 40 connections reset immediately after connect'}
+    for _ in range(40):
+        h = _socket.socket(_socket.AF_INET, _socket.SOCK_STREAM)
+        try:
+            h.settimeout(5.0)
+            h.connect(srv.address)
+            h.setsockopt(_socket.SOL_SOCKET, _socket.SO_LINGER, _struct.pack('ii', 1, 0))
+        except OSError:
+            pass
+        finally:
+            h.close()
+    time.sleep(0.2)
+    s.case(case, nontrivial=True, classes=['tcp:reset-before-accept-burst'])
+    ok = srv.alive()
+    if ok:
+        try:
+            t = sim.TcpSession(srv)
+            t.close()
+        except Exception as exc:
+            ok = False
+    if not ok:
+        s.fail('tcp', 'tcp:server-down-after-connections-reset-before-accept', case, observed=repr(srv.error),
+               expected='the listener keeps accepting and serving new sessions')
+        return
+    # (2)
+    addr = {x['name']: (tuple(x['address']) if x['address'] else None) for x in SPECS}
+    wr = {'svc': 'write_tag', 'tag': 'I16', 'form': 'sym', 'case': 0, 'elem': 2, 'count': 3, 'type': 'INT', 'values': [321, -7, 77]}
+    msg = M.op_message(wr, 'INT', None)
+    shapes = [('bare', msg), ('wrapped', rc.unconnected_send(msg)), ('bundle', rc.unconnected_send(rc.req_multiple([msg, msg])))]
+    for name, payload in shapes:
+        probe = sim.TcpSession(srv)
+        frame = rc.rr_frame(probe.handle, payload, b'C08sweep')
+        probe.close()
+        for cut in range(1, len(frame)):
+            case = {'tcp': 'write request (%s) cut after %d of %d bytes, then end of stream' % (name, cut, len(frame))}
+            for sp in SPECS:
+                if sp['name'] == 'I16':
+                    srv.set_values('I16', [0] * sp['length'])
+            before = srv.snapshot()
+            sock = srv.connect(5.0)
+            try:
+                sock.sendall(rc.register())
+                fr, _, _ = sim.recv_frames(sock, 1, 5.0)
+                if not fr:
+                    raise common.HarnessError('no Register reply in truncation sweep')
+                handle = rc.dec_encap(fr[0])['session']
+                f2 = rc.rr_frame(handle, payload, b'C08sweep')
+                sock.sendall(f2[:cut])
+                sock.shutdown(1)
+                buf, eof = sim.recv_until_eof(sock, 10.0)
+                if not eof:
+                    raise common.HarnessError('connection with an unfinished frame not closed within 10 s')
+            finally:
+                sock.close()
+            s.case(case, nontrivial=cut > 24, classes=['tcp:truncation-sweep:' + name])
+            after = srv.snapshot()
+            if after != before:
+                s.fail('tcp', 'tcp:unfinished-frame-changed-tags', case, observed={'tags': [n for n in after if after[n] != before[n]], 'reply_bytes': len(buf)},
+                       expected='a request whose final byte was never delivered changes no tag')
+                return
+            if buf:
+                s.fail('tcp', 'tcp:reply-for-unfinished-frame', case, observed={'reply': bytes(buf).hex()[:120]}, expected='no reply, connection closed')
+                return
 
 
 def pred_tcp(case, stats):
